@@ -4,6 +4,7 @@
 # runs the property's check against it and prints the verdict. Evidence/replays go to a scratch dir.
 set -u
 PATCH="$1"; PROP="$2"; TIER="${3:-quick}"
+case "$PATCH" in -R:*) ;; *) PATCH="$(realpath "$PATCH")" ;; esac
 VERIF_DIR="$(cd "$(dirname "$0")/.." && pwd)"
 M=$(mktemp -d /var/tmp/verif-mut-XXXXXX)
 trap 'rm -rf "$M"' EXIT
